@@ -61,7 +61,7 @@ fn props() -> Vec<PropDef> {
 		p!("C12", "exploration", c12, part),
 		p!("C13", "exploration", c13, part),
 		p!("C14", "exploration", c14, part),
-		p!("C15", "exploration", c15),
+		p!("C15", "exploration", c15, part),
 		p!("C16", "exploration", c16),
 		p!("C17", "exploration", c17),
 		p!("C18", "exploration", c18, part),
